@@ -248,6 +248,46 @@ func runOp(f []string) (string, bool) {
 			}
 			return strconv.FormatBool(pe.Is(tg))
 		}), true
+	case f[1] == "string" && len(f) == 3:
+		return guard(func() string {
+			e := parseErr(f[2])
+			st, ok := e.(fmt.Stringer)
+			x, isExc := e.(interface {
+				TypeId() int32
+				Msg() string
+			})
+			if !ok || !isExc {
+				return "nostring"
+			}
+			str := st.String()
+			// parse it back: Name(<decimal>): <quoted>
+			i := strings.IndexByte(str, '(')
+			j := strings.Index(str, "): ")
+			if i <= 0 || j < i {
+				return "unparsable"
+			}
+			for _, c := range str[:i] {
+				if !(c >= 'A' && c <= 'Z' || c >= 'a' && c <= 'z') {
+					return "unparsable"
+				}
+			}
+			tid, err1 := strconv.ParseInt(str[i+1:j], 10, 32)
+			msg, err2 := strconv.Unquote(str[j+3:])
+			if err1 != nil || err2 != nil {
+				return "unparsable"
+			}
+			raw := "na"
+			ascii := true
+			for k := 0; k < len(x.Msg()); k++ {
+				if x.Msg()[k] >= 0x80 {
+					ascii = false
+				}
+			}
+			if ascii {
+				raw = hexs(str)
+			}
+			return fmt.Sprintf("name=%s t=%d m=%s tid=%d msg=%s raw=%s", str[:i], tid, hexs(msg), x.TypeId(), hexs(x.Msg()), raw)
+		}), true
 	case f[1] == "as" && len(f) == 4:
 		return guard(func() string {
 			e := parseErr(f[2])
@@ -445,6 +485,7 @@ func genCases(o *lib.Opts) {
 					term = excNode(k, g.id(), tid, m)
 				}
 				count("text", term, emit("exc", "text", term))
+				count("string", term, emit("exc", "string", term))
 				for _, p := range []string{"", "p: ", "\xfe"} {
 					res := emit("exc", "prepend", hexs(p), term)
 					count("prepend", term, res)
@@ -470,11 +511,25 @@ func genCases(o *lib.Opts) {
 		emit("exc", "pis", term, "nil")
 		em.Count("nil-arg")
 	}
+	// 1c. String(): every ASCII byte in the message (escapes), and a few non-ASCII / invalid UTF-8 messages
+	for b := 0; b < 128; b++ {
+		emit("exc", "string", excNode("a", g.id(), int32(b-3), "<"+string([]byte{byte(b)})+">"))
+		em.Count("string:ascii-byte")
+	}
+	all := make([]byte, 128)
+	for i := range all {
+		all[i] = byte(i)
+	}
+	for _, k := range []string{"a", "t", "e"} {
+		emit("exc", "string", excNode(k, g.id(), math.MinInt32, string(all)))
+		emit("exc", "string", excNode(k, g.id(), math.MaxInt32, "é\xff\u2028\U0001F600"))
+	}
 	// 2. random terms and chains
 	for i := 0; i < n; i++ {
 		nodes := g.chain(g.r.Pick(0, 0, 1, 1, 2, 3, 5, 8))
 		term := strings.Join(nodes, ">")
 		count("text", term, emit("exc", "text", term))
+		count("string", term, emit("exc", "string", term))
 		p := g.str(0)
 		count("prepend", term, emit("exc", "prepend", hexs(p), term))
 		count("wrap", term, emit("exc", "wrap", term))
